@@ -145,7 +145,7 @@ class C02(Property):
     id = "C02"
     rule = (
         "Binary images fed to locate_droplets_in_mask (and to locate_droplets with a two-valued field + threshold). "
-        "Exhaustive: every image on small Cartesian grids for every periodicity mask (plus all 65536 images of the fully periodic 4x4 grid), on small cylindrical grids, and a sweep of lopsided on-axis objects (disc + axial filament) over every z-translation of periodic 4x8 / 4x9 cylinders "
+        "Exhaustive: every image on small Cartesian grids for every periodicity mask (plus all 65536 images of the fully periodic 4x4 grid), on small cylindrical grids, a sweep of lopsided on-axis objects (disc + axial filament) over every z-translation of periodic 4x8 / 4x9 cylinders, and a sweep of winding on-axis objects (tube + spoke) accompanied by on-axis blobs at every z-position of periodic 5x7 / 5x8 cylinders "
         "for both periodic_z; random: Hypothesis-built masks (cell-wise, noise at 5-70 % density, wrapped boxes, "
         "persistent random walks = snakes/rings/winding paths, mixtures, percolation-like noise on fully periodic 2-D/3-D grids) on grids up to 40 / 16x16 / 8^3 cells "
         "(cylindrical up to 8x16) with anisotropic spacings and arbitrary origins.  Oracle: independent BFS "
@@ -195,9 +195,32 @@ class C02(Property):
         # lopsided on-axis objects (thick disc + thin filament along the axis) at every z-translation of a periodic cylinder
         for nz in ([8, 9] if tier == "quick" else [8, 9, 12, 15]):
             jobs.append({"domain": "cyl-lopsided-sweep", "family": "cyl-lopsided", "shape": [4, nz]})
+        # an on-axis object that winds around the periodic z-axis (tube + spoke to the axis) together with ordinary on-axis blobs
+        # at every z-position, also across the periodic boundary
+        for nz in ([7, 8] if tier == "quick" else [7, 8, 11, 12]):
+            jobs.append({"domain": "cyl-winding-plus-blobs", "family": "cyl-winding", "shape": [5, nz]})
         return jobs
 
     def expand(self, job):
+        if job["family"] == "cyl-winding":
+            nr, nz = job["shape"]
+            g = {"nr": nr, "nz": nz, "dr": 0.5, "dz": 0.8, "z0": -1.3, "periodic_z": True}
+            for rt in (2, 3, 4):  # radial index of the tube
+                for zs in range(nz):  # position of the spoke
+                    for z0 in range(nz):  # first cell of the blob
+                        for blen in (1, 2, 3):
+                            for brad in (1, 2):
+                                if brad >= rt:  # the blob would touch the tube
+                                    continue
+                                zz = np.arange(z0, z0 + blen) % nz
+                                if any(abs(((z - zs + nz // 2) % nz) - nz // 2) <= 1 for z in zz):
+                                    continue  # the blob would touch the spoke
+                                mask = np.zeros((nr, nz), bool)
+                                mask[rt, :] = True
+                                mask[: rt + 1, zs] = True
+                                mask[:brad, zz] = True
+                                yield {"family": "cyl", "grid": g, "bits": gen.mask_to_bits(mask), "via": "mask"}
+            return
         if job["family"] == "cyl-lopsided":
             nr, nz = job["shape"]
             g = {"nr": nr, "nz": nz, "dr": 0.5, "dz": 0.8, "z0": -1.3, "periodic_z": True}
